@@ -28,14 +28,15 @@ package peerstore
 //@   ensures stored: result == nil
 //@   ensures recorded: (p.PeerID in g.peerMap) && g.peerMap[p.PeerID].id == p.PeerID && g.peerMap[p.PeerID].ip == p.IP && g.peerMap[p.PeerID].port == p.Port && g.peerMap[p.PeerID].complete == p.Complete && g.peerMap[p.PeerID].expiresAt == s.clk.now + s.config.TTL
 
-// GetPeers: only the size bound is under contract here. That the returned peers are distinct
-// follows from the group invariant (distinct ids in peerList) and rand.Perm returning distinct
-// indexes; the loop that copies them was not brought to a stable discharge (queries of 10-30 s).
 //@ func LocalStore.GetPeers
 //@   requires s != nil
 //@   modifies *
 //@   ensures bounded: len(result0) <= max(n, 0)
-//@   loop 0 invariant built: 0 - 1 <= rangeindex && rangeindex < len(indexes) && len(result) == rangeindex + 1 && len(indexes) <= max(n, 0)
+//@   ensures distinct: forall k int, l int :: 0 <= k && k < len(result0) && 0 <= l && l < len(result0) && k != l ==> result0[k].PeerID != result0[l].PeerID
+//@   loop 0 invariant built: 0 - 1 <= rangeindex && rangeindex < len(indexes) && len(result) == rangeindex + 1 && len(indexes) <= len(g.peerList) && len(indexes) <= max(n, 0)
+//@   loop 0 invariant ids: forall k int :: 0 <= k && k < len(result) ==> result[k] != nil && allocated(result[k]) && result[k].PeerID == g.peerList[indexes[k]].id
+//@   loop 0 invariant perm: (forall i int :: 0 <= i && i < len(indexes) ==> 0 <= indexes[i] && indexes[i] < len(g.peerList)) && (forall i int, j int :: 0 <= i && i < len(indexes) && 0 <= j && j < len(indexes) && i != j ==> indexes[i] != indexes[j])
+//@   loop 0 invariant group: g != nil && (forall i int :: 0 <= i && i < len(g.peerList) ==> g.peerList[i] != nil && allocated(g.peerList[i])) && (forall i int, j int :: 0 <= i && i < len(g.peerList) && 0 <= j && j < len(g.peerList) && i != j ==> g.peerList[i].id != g.peerList[j].id)
 
 // The sweep re-checks each index under the write lock, so stale indices from the read-locked
 // scan are harmless; what is proved here is that every write-locked section re-establishes
